@@ -431,4 +431,9 @@ example : ∃ p, new = .ok p ∧
   refine ⟨_, rfl, ?_⟩
   decide
 
+
+/-- every source fact this property's model consumes was located in the current source by tools/extract (a fact that is not
+found is emitted with a placeholder value; this obligation then fails and the check uses the reference model) -/
+theorem source_facts_located_c19 : JsonC.Generated.factsFound_pb = true := by decide
+
 end JsonC.Printbuf
